@@ -637,10 +637,79 @@ def work_history(shard):
 
 # ---------------------------------------------------------------------------
 
+# ---------------------------------------------------------------------------
+# leg fractional (E1): subscripts and bounds given as fractions are rounded to the nearest whole number, halves away
+# from zero, before anything else is decided
+
+FRAC_SUBS = ['.4', '.5', '1.5', '2.4', '2.5', '2.6', '3.5', '4.4', '4.5', '-.4', '-.5', '2.5#', '2.4999999999#', 'H!', 'D#']
+
+
+def _cint(text):
+    import math
+    from fractions import Fraction
+    v = Fraction({'H!': '2.5', 'D#': '0.5'}.get(text, text.rstrip('#')))
+    r = int(math.floor(abs(v) + Fraction(1, 2)))
+    return -r if v < 0 else r
+
+
+def work_fractional(shard):
+    H = _H()
+    part = Partial()
+    for base in shard:
+        for dimtext, top in (('4', 4), ('3.5', 4), ('4.5', 5), ('2.5', 3)):
+            for sub in FRAC_SUBS:
+                s = H.new_session()
+                try:
+                    case = {'base': base, 'dim': dimtext, 'sub': sub}
+                    pre = b'OPTION BASE %d:' % base if base is not None else b''
+                    r = H.run(s, pre + b'H!=2.5:D#=.5:DIM A%%(%s):FOR I%%=%d TO %d:A%%(I%%)=100+I%%:NEXT' % (
+                        dimtext.encode(), base or 0, top))
+                    part.n += 1
+                    part.traces += 1
+                    if r.exc is not None or r.err is not None:
+                        part.violation('fractional/dim-bound', 'DIM A%%(%s) then filling 0..%d (base %r): %r' % (dimtext, top, base, r), case)
+                        continue
+                    want = _cint(sub)
+                    r = H.run(s, b'X%%=A%%(%s)' % sub.encode())
+                    if r.exc is not None:
+                        part.violation('fractional/host-exception/%s' % H.exc_key(r.exc), 'A%%(%s): %r' % (sub, r.exc), case)
+                        continue
+                    if want < 0:
+                        exp = ('err', 5)
+                    elif want < (base or 0) or want > top:
+                        exp = ('err', 9)
+                    else:
+                        exp = ('ok', 100 + want)
+                    got = ('err', r.err) if r.err is not None else ('ok', s.get_variable('X%'))
+                    if got != exp:
+                        part.violation('fractional/subscript/%s' % ('half' if sub.rstrip('#').endswith('.5') or sub in ('H!', 'D#') else 'other'),
+                                       'DIM A%%(%s), OPTION BASE %r: A%%(%s) gives %r, expected %r (subscript %d)' % (dimtext, base, sub, got, exp, want), case)
+                    # assignment through the same subscript changes that element and no other
+                    if exp[0] == 'ok':
+                        r = H.run(s, b'A%%(%s)=7' % sub.encode())
+                        arr = list(s.get_variable('A%()'))
+                        exp_arr = [0] * (top + 1)
+                        for i in range(base or 0, top + 1):
+                            exp_arr[i] = 100 + i
+                        exp_arr[want] = 7
+                        lo = base or 0
+                        if r.err is not None or arr[:top + 1 - lo] != exp_arr[lo:]:
+                            part.violation('fractional/assignment', 'A%%(%s)=7 (DIM A%%(%s), base %r): array %r, expected %r' % (
+                                sub, dimtext, base, arr[:top + 1 - lo], exp_arr[lo:]), case)
+                    part.classes.add('fractional/%s/%s' % ('b%s' % base, exp[0] if exp[0] == 'ok' else 'err%d' % exp[1]))
+                finally:
+                    s.close()
+    part.sample({'base': shard[0]})
+    return part
+
+
 def legs(ctx):
     sc = shape_cases(ctx.quick)
     fam = shape_family(ctx.quick)
     out = [
+        Leg('fractional', [[None], [0], [1]], work_fractional, exhaustive=True,
+            bound='%d subscripts written as fractions (below, at and above .5; negative; double; single and double variables) x 4 '
+                  'fractional DIM bounds x OPTION BASE unset/0/1: the element read and the element assigned' % len(FRAC_SUBS)),
         Leg('shapes', list(chunked(sorted(sc, key=lambda c: (hash_shape(c))), 6 if ctx.quick else 4)),
             work_shapes, exhaustive=True,
             bound='%d shapes (1-3 dims over bounds {0,1,2,3,10,11}%s, 4 dims over bounds <= %d, (30) and '
@@ -669,7 +738,15 @@ def hash_shape(c):
     return (n * 7919 + len(dims) * 31 + (base or 0) * 3 + TYPES.index(t)) % 1013, dims, base or -1, t
 
 
+def _replay_fractional(case):
+    part = work_fractional([case['base']])
+    part.viol = [v for v in part.viol if v[2].get('dim') == case['dim'] and v[2].get('sub') == case['sub']]
+    return part
+
+
 def replay(ctx, leg, case):
+    if leg == 'fractional':
+        return _replay_fractional(case)
     part = Partial()
     if leg == 'shapes':
         check_shape(part, (tuple(case[0]), case[1], case[2]))
